@@ -933,3 +933,55 @@ def fetcher_table_churn():
                    ("quiesce",)] + [("eof", 1 + i) for i in range(nf) if i != 2] + [("eof", 0), ("quiesce",)]
             out.append(Scenario(st, name="fetcher-table-churn-%d-%s" % (nf, tr)))
     return out
+
+
+def requester_backpressure():
+    """a client sends requests and does not read: the answers fill the socket and then the write buffer; from then on the
+    connection is closed or every accepted request is still answered in order - never open with answers silently missing"""
+    out = []
+    for tr in ("raw", "uds", "ws"):
+        for mode in ("eagain", "300,0:eagain", "0:eagain"):
+            for single in (True, False):
+                st = [("connect", 0, tr, "unix" if tr == "uds" else "local6"), ("connect", 1, "raw", "remote6"),
+                      ("msg", 1, obj(method="add", params=obj(path="s", value="v" * 100), id=1)),
+                      ("wmode", 0, mode)]
+                reqs = [obj(method="get", params=obj(), id=100 + i) if i % 2 else obj(method="info", id=100 + i) for i in range(70)]
+                if single:
+                    st += [("msg", 0, r_) for r_ in reqs]
+                else:
+                    for k in range(0, 70, 10):
+                        st.append(("msg", 0, reqs[k:k + 10]))
+                st += [("wmode", 0, "all"), ("writable", 0),
+                       ("msg", 0, obj(method="info", id="after")),
+                       ("msg", 1, obj(method="get", params=obj(), id=2)),
+                       ("quiesce",), ("eof", 0), ("eof", 1), ("quiesce",)]
+                out.append(Scenario(st, name="requester-backpressure-%s-%s-%s" % (tr, mode.replace(",", "_").replace(":", "_"), "single" if single else "batches")))
+    return out
+
+
+def split_upgrade_interleaved():
+    """a WebSocket upgrade request arrives in two pieces (cut at every line end and inside the header block) and between the
+    pieces another HTTP connection is accepted (silent, refused with 404, or upgrading itself): the first connection is
+    upgraded and served exactly as if its request had come in one piece"""
+    from . import simlog as _L
+    out = []
+    up = _L.ws_upgrade()
+    cuts = [i + 2 for i in range(len(up) - 2) if up[i:i + 2] == b"\r\n"][:-1] + [20, len(up) - 3, len(up) - 1]
+    for ci, cut in enumerate(sorted(set(cuts))):
+        for other in ("silent", "404", "upgrade"):
+            st = [("connect", 0, "raw", "local6"),
+                  ("msg", 0, obj(method="add", params=obj(path="s", value=1), id=1)),
+                  ("connect_http", 1, "remote6"),
+                  ("partial", 1, up[:cut]),
+                  ("connect_http", 2, "remote6")]
+            if other == "404":
+                st.append(("partial", 2, b"GET /nope HTTP/1.1\r\nHost: x\r\n\r\n"))
+            elif other == "upgrade":
+                st.append(("partial", 2, up))
+            st += [("partial", 1, up[cut:]),
+                   ("msg", 1, obj(method="fetch", params=obj(id="f"), id=1)),
+                   ("msg", 0, obj(method="change", params=obj(path="s", value=2), id=2)),
+                   ("msg", 1, obj(method="info", id=2)),
+                   ("quiesce",), ("eof", 1), ("eof", 2), ("eof", 0), ("quiesce",)]
+            out.append(Scenario(st, name="split-upgrade-%d-%s" % (ci, other)))
+    return out
